@@ -760,7 +760,7 @@ func constExprMutableGlobal(m *wasm.Module) string {
 //   tail-call-result-mismatch : a return_call / return_call_indirect whose callee result types differ
 //                               from the caller's (invalid per the tail-call proposal, accepted here)
 //   atomic-rmw8-logic-after-call : i64.atomic.rmw8.{and,or,xor}_u (compare-exchange loops on amd64)
-func causeTags(m *wasm.Module) string {
+func causeTags(m *wasm.Module, bin []byte) string {
 	var tags []string
 	mismatch, rmw := false, false
 	for i := range m.CodeSection {
@@ -817,7 +817,14 @@ func causeTags(m *wasm.Module) string {
 		for _, it := range m.ElementSection[i].Init {
 			if it != wasm.ElementInitNullReference && it&(1<<30) != 0 {
 				if ty, ok := gtype(it &^ (1 << 30)); ok && ty != m.ElementSection[i].Type {
-					tags = append(tags, "element-item-global-not-a-reference")
+					// the decoded item carries wazero's "comes from global k" tag (bit 30): either the binary
+					// really says `global.get k` (the validator does not check k's type), or a function index
+					// with bit 30 set got past the decoder's range check and is mistaken for the tag
+					if found, parsed := elemItemsUseGlobalGet(bin); parsed && !found {
+						tags = append(tags, "element-item-index-collides-with-global-tag")
+					} else {
+						tags = append(tags, "element-item-global-not-a-reference")
+					}
 					break
 				}
 			}
